@@ -5,7 +5,7 @@ condition number are known by construction; never a second solver.
 
 Monitors
   ls_optimal        PINV / LSTSQ:  |A^T (A x - b)| <= u |A| ((32 max(m,n) + 512 [SVD drivers]) (|A||x| + |b|) + 64 kappa |b| [PINV])
-  min_norm          PINV:          component of x outside the (constructed) row space of A <= c u kappa (|x| + |b|/|A|)
+  min_norm          PINV:          component of x outside the (constructed) row space of A <= u (64 kappa + 8 max(m,n)) (|x| + |b|/|A|)
   chol_backward     Cholesky on SPD A:  |A x - b| <= c u (|A||x| + |b|)
   chol_must_raise   Cholesky on symmetric A with an eigenvalue <= -0.1|A| (constructed spectra, a negative diagonal
                     entry at the first/middle/last pivot, small dyadic matrices, one such matrix inside a batch of
@@ -61,7 +61,8 @@ DT = {"f64": torch.float64, "f32": torch.float32}
 C_LS = 32.0      # x max(m,n)
 C_LSK = 64.0     # x kappa |b| (PINV only)
 C_SVD = 512.0    # size-independent constant of the SVD-based drivers
-C_MN = 64.0
+C_MN = 64.0      # x kappa
+C_MND = 8.0      # x max(m,n)  (orthogonality of the computed singular vectors, length-n dot products)
 C_CH = 16.0
 C_CG = 16.0
 C_SP = 16.0
@@ -254,7 +255,7 @@ def judge_ls(ck, sname, cfg, dn, sysd, b, x, bkind, batch_tag, minnorm, kappa_in
             return
         Q = sysd["Qrow"]
         comp = xl - Q @ (Q.T @ xl)
-        tol = C_MN * u * sysd["kappa"] * (nx + nb / sysd["smax"]) + 64 * tiny
+        tol = (C_MN * sysd["kappa"] + C_MND * max(m, n)) * u * (nx + nb / sysd["smax"]) + 64 * tiny
         ck.ratio("min_norm", regime, n2(comp), tol, entry, "not_minimum_norm",
                  lambda: dict(wit(), null_component=np.asarray(comp, dtype=np.float64).reshape(-1).tolist()))
 
